@@ -69,6 +69,64 @@ Example C19_skip_nonvacuous :
      = Some [ModifyTable [116]%N [AddColumn [99]%N]].
 Proof. split; [repeat constructor | split; vm_compute; reflexivity]. Qed.
 
+(** ** C19_skip_options_reusable (round 3).  The skip list reaches the differ as functional
+    option VALUES ([schema.DiffSkipChanges(...)], [schema.DiffNormalized()], the list built by
+    cmdapi [Diff.Options()]) that callers keep and pass to many diffs.  Model: Excl/Options.v
+    ([NewDiffOptions] folds the options over the zero [DiffOptions]; [DiffSkipChanges K] appends K).
+
+    For every driver as in C19_skip, every sequence of diffs [calls] -- each call is a list of
+    option values, the same values may occur in many calls, several times in one call, in any
+    order, [DiffNormalized] anywhere -- and every pair of schemas:
+    (1) the i-th change set is the unfiltered change set minus exactly the kinds the options OF
+        THAT CALL name (nothing of the other calls of the sequence enters);
+    (2) no kind named by a call's options occurs in its change set at either level;
+    (3) two option lists naming the same SET of kinds (whatever the order, the duplicates, the
+        split over option values) give the same change set;
+    (4) [DiffNormalized] sets the mode and leaves the skip list alone, wherever it stands.
+    In Gallina (1) holds because a function cannot be rewritten by applying it; that the Go
+    closures are such functions is the observation of the tie stage "reuse" (model = Go on every
+    call of every sequence; oracle: equal to what freshly made options give). *)
+From Atlas Require Import Excl.Options Excl.OptionsProofs.
+
+Theorem C19_skip_options_reusable :
+  forall D : DiffDriver, attr_changes_only D ->
+  forall calls : list (list optd), Forall skippable_opts calls ->
+  forall from to : schema,
+    diff_sequence D calls from to
+      = map (fun ds => option_map (remove_kinds (kinds_of ds)) (SchemaDiff D no_skip from to)) calls
+    /\ (forall ds r k, In ds calls -> SchemaDiffOpts D (map option_of ds) from to = Some r ->
+                       In k (kinds_of ds) -> ~ occurs k r)
+    /\ (forall ds ds', skippable_opts ds -> skippable_opts ds' ->
+                       (forall k, In k (kinds_of ds) <-> In k (kinds_of ds')) ->
+                       SchemaDiffOpts D (map option_of ds) from to = SchemaDiffOpts D (map option_of ds') from to)
+    /\ (forall ds, SkipChanges (NewDiffOptions (map option_of ds)) = kinds_of ds
+                   /\ Mode (NewDiffOptions (map option_of ds))
+                      = if existsb (fun d => match d with ONormalized => true | _ => false end) ds
+                        then DiffModeNormalized else DiffModeUnset).
+Proof.
+  intros D HD calls Hc from to. split; [|split; [|split]].
+  - exact (sequence_exact D HD calls from to Hc).
+  - intros ds r k Hin Hr Hk. rewrite Forall_forall in Hc.
+    exact (options_absent D HD ds from to r k (Hc ds Hin) Hr Hk).
+  - intros ds ds' Hs Hs' H. exact (options_set_only D HD ds ds' from to Hs Hs' H).
+  - intros ds. split; [exact (NewDiffOptions_skip ds)|].
+    unfold NewDiffOptions. rewrite fold_options_mode. reflexivity.
+Qed.
+Print Assumptions C19_skip_options_reusable.
+
+(** non-vacuity: A = [DropColumn; DropColumn] (a duplicate inside one option), B = [DropIndex; DropColumn]
+    (overlaps A); the calls (N A B), (N A), (B N A A), (N) on the pair of C19_skip_nonvacuous *)
+Example C19_skip_options_nonvacuous :
+  let A := OSkip [KDropColumn; KDropColumn] in
+  let B := OSkip [KDropIndex; KDropColumn] in
+  Forall skippable_opts [[ONormalized; A; B]; [ONormalized; A]; [B; ONormalized; A; A]; [ONormalized]]
+  /\ diff_sequence sqlite_driver [[ONormalized; A; B]; [ONormalized; A]; [B; ONormalized; A; A]; [ONormalized]] ex_from ex_to
+     = [Some [ModifyTable [116]%N [AddColumn [99]%N]];
+        Some [ModifyTable [116]%N [AddColumn [99]%N; DropIndex [105]%N]];
+        Some [ModifyTable [116]%N [AddColumn [99]%N]];
+        Some [ModifyTable [116]%N [DropColumn [98]%N; AddColumn [99]%N; DropIndex [105]%N]]].
+Proof. split; [repeat constructor | vm_compute; reflexivity]. Qed.
+
 (** ** C19_exclude_exact.  "A resource matching an --exclude pattern is absent from every
     inspection result ..., while every resource that matches no pattern is still present."
 
@@ -336,3 +394,79 @@ Example C19_plan_nonvacuous :
   ExcludeRealm (true, true) [ex_to] pats = EOk [ex_to] /\
   SchemaDiff sqlite_driver no_skip ex_from' ex_to = Some [ModifyTable [116]%N [AddColumn [99]%N; DropIndex [105]%N]].
 Proof. split; [vm_compute; reflexivity|]. split; vm_compute; reflexivity. Qed.
+
+(** ** C19_exclude_schema_scope (round 3).  The scope rule of exclusion patterns
+    (sql/schema/inspect.go, InspectOptions.Exclude): t = exclude table t; t.c = exclude column,
+    index and foreign key c of table t; likewise with wildcards.  At the scope of ONE schema (every
+    SQLite connection: schema main; MySQL/PostgreSQL URLs bound to a schema; ExcludeSchema) the
+    first component of a pattern names a TABLE -- also when a table, a column or an index is
+    called like the schema (patterns main, main.secret, main.STAR, main.STAR[type=index]) -- and
+    nothing outside that schema is touched.
+
+    For every realm [r] (any names at any level), link mode, schema [s] of it whose name is plain
+    (no dot, double quote, CR, LF, no glob meta character, no closing bracket: [ExcludeSchema]
+    builds schema-dot-pattern without quoting), every pattern list that splits into chains [G] of
+    one or two globs that [filepath.Match] answers for every name (every well-formed glob:
+    C19_scope_chains_ok_wf):  [ExcludeSchema link r s patterns] is exactly [scope_realm]
+    (Excl/ScopeSpec.v): the schemas called [s_name s] filtered by the chains AS GIVEN -- a
+    one-element chain selects tables, a two-element chain children of the tables its first element
+    selects, with the [type=...] selectors and the cascade of C19_exclude_exact_except -- and every
+    other schema unchanged.  The reference never forms a qualified string; the proof goes through
+    the code's own route (split of the qualified string by the csv model, [filepath.Match] of the
+    literal schema name = equality, C19_exclude_exact_except on the qualified chains).
+    Not covered: schema names that are not plain (observation in notes/C19.md: no quoting). *)
+From Atlas Require Import Excl.ScopeSpec Excl.ScopeProofs.
+
+Theorem C19_exclude_schema_scope :
+  forall (link : bool * bool) (r : realm) (s : schema) (patterns : list bytes) (G : list (list bytes)),
+    plain_schema_name (s_name s) -> split patterns = EOk G -> scope_chains_ok G ->
+    ExcludeSchema link r s patterns = EOk (scope_realm link (s_name s) G r)
+    /\ (forall m : bytes, Match (s_name s) m = Ok (bytes_eqb (s_name s) m)).
+Proof.
+  intros link r s patterns G Hn Hs HG. split.
+  - exact (ExcludeSchema_scope link r s patterns G Hn Hs HG).
+  - intros m. exact (Match_plain (s_name s) m Hn).
+Qed.
+Print Assumptions C19_exclude_schema_scope.
+
+Theorem C19_scope_chains_ok_wf :
+  forall G : list (list bytes),
+    Forall (fun g => g <> [] /\ List.length g <= 2 /\ Forall (fun v => WellFormed (glob_of v)) g) G -> scope_chains_ok G.
+Proof.
+  intros G H. unfold scope_chains_ok. eapply Forall_impl; [|exact H]. intros g (H1 & H2 & H3).
+  split; [exact H1|]. split; [exact H2|]. eapply Forall_impl; [|exact H3].
+  intros v Hw n. exact (Match_total (glob_of v) n Hw).
+Qed.
+Print Assumptions C19_scope_chains_ok_wf.
+
+(** non-vacuity, names that coincide: schema main { table main (columns main, secret; index secret
+    on secret), table secret (column main) }, schema secret { table main (column secret) }.
+    At the scope of schema main: pattern main.secret removes column secret and index secret of TABLE main
+    and keeps table secret; pattern main removes table main only; schema secret is untouched by both. *)
+Definition sc_col (n : bytes) : column := mkColumn n 2 [105;110;116]%N false None None None.
+Definition sc_main : bytes := [109;97;105;110]%N.
+Definition sc_secret : bytes := [115;101;99;114;101;116]%N.
+Definition sc_realm : realm :=
+  [mkSchema sc_main
+     [mkTable sc_main false false [sc_col sc_main; sc_col sc_secret] None
+        [mkIndex sc_secret false [mkPart 0 false (Some sc_secret) None] None None None] [] [];
+      mkTable sc_secret false false [sc_col sc_main] None [] [] []];
+   mkSchema sc_secret [mkTable sc_main false false [sc_col sc_secret] None [] [] []]].
+Definition sc_s0 : schema := match sc_realm with s :: _ => s | [] => mkSchema [] [] end.
+
+Example C19_exclude_schema_scope_nonvacuous :
+  plain_schema_name (s_name sc_s0)
+  /\ ExcludeSchema (true, true) sc_realm sc_s0 [sc_main ++ [46]%N ++ sc_secret]
+     = EOk [mkSchema sc_main
+              [mkTable sc_main false false [sc_col sc_main] None [] [] [];
+               mkTable sc_secret false false [sc_col sc_main] None [] [] []];
+            mkSchema sc_secret [mkTable sc_main false false [sc_col sc_secret] None [] [] []]]
+  /\ ExcludeSchema (true, true) sc_realm sc_s0 [sc_main]
+     = EOk [mkSchema sc_main [mkTable sc_secret false false [sc_col sc_main] None [] [] []];
+            mkSchema sc_secret [mkTable sc_main false false [sc_col sc_secret] None [] [] []]]
+  /\ scope_realm (true, true) sc_main [[sc_main; sc_secret]] sc_realm
+     = [mkSchema sc_main
+              [mkTable sc_main false false [sc_col sc_main] None [] [] [];
+               mkTable sc_secret false false [sc_col sc_main] None [] [] []];
+            mkSchema sc_secret [mkTable sc_main false false [sc_col sc_secret] None [] [] []]].
+Proof. split; [vm_compute; reflexivity|]. split; [vm_compute; reflexivity|]. split; vm_compute; reflexivity. Qed.
